@@ -431,6 +431,9 @@ func c16TestFile(pkg string, st importStyle, progs []*Program, own []*Program) (
 		return "", err
 	}
 	sb.WriteString(src)
+	// a declaration with a directive doc comment right AFTER the generators of the file: whatever the tool does to keep the
+	// //go:debug line and the output comment of the Example below, this directive has to stay on its declaration
+	sb.WriteString("\n//go:noinline\nfunc twiceNoInline(x int) int { return 2 * x }\n\nvar _ = twiceNoInline\n")
 	sb.WriteString("\ntype iterI[T any] interface {\n\tMoveNext() bool\n\tCurrent() T\n}\n\n")
 	sb.WriteString("func drainT[T any](mk func() iterI[T]) (out []string) {\n\ttr.Reset(400)\n\tdefer func() {\n\t\tif r := recover(); r != nil {\n\t\t\tout = append(out, fmt.Sprint(\"panic:\", r))\n\t\t}\n\t\tout = append(out, tr.T...)\n\t}()\n\tit := mk()\n\tfor i := 0; i < 40 && it.MoveNext(); i++ {\n\t\tout = append(out, tr.Fmt(it.Current()))\n\t}\n\treturn\n}\n\n")
 	sb.WriteString("func TestGeneratedAgainstReference(t *testing.T) {\n")
